@@ -30,6 +30,7 @@ func genSettleScenario(r *kernel.Rand, prop string) *kernel.Scenario {
 	c["ledger_max_us"] = int64([]int{200, 2000, 50000}[r.Intn(3)])
 	c["event_max_us"] = int64([]int{200, 3000, 100000}[r.Intn(3)])
 	c["yield_pct"] = int64([]int{0, 30, 100}[r.Intn(3)])
+	c["long_yields"] = int64(r.Intn(2))
 	c["ctx_ms"] = 120000
 	c["watch"] = int64(r.Intn(2))
 	if prop == "C04" {
@@ -46,7 +47,8 @@ func genSettleScenario(r *kernel.Rand, prop string) *kernel.Scenario {
 		amt++
 		switch k := r.Weighted([]int{8, 2, 3, 2}); {
 		case k == 1 && nsub < 2:
-			sc.Steps = append(sc.Steps, kernel.St("sub-open", "a", r.Range(0, 60), "b", r.Range(0, 60), "app", r.Intn(2)))
+			// all: one side (1: index 0, 2: index 1) moves its whole parent balance into the sub-channel
+			sc.Steps = append(sc.Steps, kernel.St("sub-open", "a", r.Range(0, 60), "b", r.Range(0, 60), "app", r.Intn(2), "all", r.Weighted([]int{5, 1, 1})))
 			openSubs = append(openSubs, nsub)
 			nsub++
 		case k == 2 && len(openSubs) > 0:
@@ -196,7 +198,7 @@ func (p *pair) subOpen(step int, st *kernel.Step) {
 		row := make([]channel.Bal, 2)
 		for j := 0; j < 2; j++ {
 			want := big.NewInt(st.Int([]string{"a", "b"}[j]) / int64(1+a))
-			if pst.Balances[a][j].Cmp(want) < 0 {
+			if pst.Balances[a][j].Cmp(want) < 0 || int(st.Int("all")) == j+1 {
 				want = new(big.Int).Set(pst.Balances[a][j])
 			}
 			row[j] = want
